@@ -70,6 +70,12 @@ func (p RemotePackage) subPathString(subPath string) string {
 	// now tweak the package URL to be a sub-path URL instead.
 	subURL := p.url // shallow copy
 	subURL.Path += "//" + subPath
+	if subURL.RawPath != "" {
+		// Keep the original encoding of the package path; otherwise the URL
+		// would be printed with its default encoding, which identifies a
+		// different package (for example when the path contains "%2F").
+		subURL.RawPath += "//" + subPath
+	}
 	if subURL.Scheme == p.sourceType {
 		return subURL.String()
 	}
